@@ -892,8 +892,23 @@ class ScopeAnalysis:
         return ("escape", "call " + name)
 
 
+_MEMO: Dict[str, object] = {}
+
+
 def collect_with_facts() -> List[Tuple[str, str, str, str, int, str]]:
-    """[(file, scope, kind, detail, occ, fact)] sorted by the first five."""
+    """[(file, scope, kind, detail, occ, fact)] sorted by the first five (memoised on the modification times of the tree: one run of
+    a check calls it twice)."""
+    key = repr(sorted((str(f), f.stat().st_mtime_ns) for f in SRC.rglob("*.py")))
+    if _MEMO.get("key") == key:
+        STATS.clear()
+        STATS.update(_MEMO["stats"])
+        return list(_MEMO["rows"])
+    rows = _collect_with_facts()
+    _MEMO.update(key=key, rows=list(rows), stats=dict(STATS))
+    return rows
+
+
+def _collect_with_facts() -> List[Tuple[str, str, str, str, int, str]]:
     STATS.clear()
     T = Tree()
     analyses: List[ScopeAnalysis] = []
